@@ -3,75 +3,129 @@ from fractions import Fraction
 import hashlib
 
 
-def _norm(x):
-    if isinstance(x, Fraction) and x.denominator == 1:
-        return x.numerator
-    return x
+from math import gcd
 
 
 class Lin:
-    __slots__ = ("c", "t", "_key")
+    """(c + sum n[s]*s) / d  with integer c, n[s], d > 0, gcd of everything 1"""
+    __slots__ = ("cn", "t", "d", "_key")
 
-    def __init__(self, c=0, t=None):
-        self.c = _norm(c)
+    def __init__(self, cn=0, t=None, d=1, _normed=False):
+        if isinstance(cn, Fraction):
+            # rescale
+            if t:
+                t = {s: k * cn.denominator for s, k in t.items()}
+            d = d * cn.denominator
+            cn = cn.numerator
+        self.cn = cn
         self.t = t if t is not None else {}
+        self.d = d
         self._key = None
+        if not _normed and d != 1:
+            self._reduce()
+
+    def _reduce(self):
+        g = gcd(self.cn, self.d)
+        if g != 1:
+            for k in self.t.values():
+                g = gcd(g, k)
+                if g == 1:
+                    break
+        if g > 1:
+            self.cn //= g
+            self.d //= g
+            self.t = {s: k // g for s, k in self.t.items()}
+
+    @property
+    def c(self):
+        return self.cn if self.d == 1 else Fraction(self.cn, self.d)
 
     # construction ------------------------------------------------
     @staticmethod
     def const(c):
-        return Lin(c, {})
+        if isinstance(c, Fraction):
+            return Lin(c.numerator, {}, c.denominator, True)
+        return Lin(c, {}, 1, True)
 
     @staticmethod
     def sym(s, k=1):
-        return Lin(0, {s: k})
+        return Lin(0, {s: k}, 1, True)
 
     def is_const(self):
         return not self.t
 
     def single(self):
-        """(sym, coef) if exactly one symbol, else None"""
+        """(sym, coef) if exactly one symbol, else None (coef may be a Fraction)"""
         if len(self.t) == 1:
             for s, k in self.t.items():
-                return s, k
+                return s, (k if self.d == 1 else Fraction(k, self.d))
         return None
 
+    def coefs(self):
+        """sym -> coefficient (Fraction or int)"""
+        if self.d == 1:
+            return dict(self.t)
+        return {s: Fraction(k, self.d) for s, k in self.t.items()}
+
     def add(self, o):
-        if not o.t:
-            return Lin(self.c + o.c, self.t)
-        if not self.t:
-            return Lin(self.c + o.c, o.t)
-        t = dict(self.t)
+        if self.d == o.d:
+            d = self.d
+            t = dict(self.t)
+            for s, k in o.t.items():
+                v = t.get(s, 0) + k
+                if v == 0:
+                    t.pop(s, None)
+                else:
+                    t[s] = v
+            return Lin(self.cn + o.cn, t, d, d == 1)
+        g = gcd(self.d, o.d)
+        ma = o.d // g
+        mb = self.d // g
+        t = {s: k * ma for s, k in self.t.items()}
         for s, k in o.t.items():
-            v = t.get(s, 0) + k
+            v = t.get(s, 0) + k * mb
             if v == 0:
                 t.pop(s, None)
             else:
-                t[s] = _norm(v)
-        return Lin(self.c + o.c, t)
+                t[s] = v
+        return Lin(self.cn * ma + o.cn * mb, t, self.d * ma)
 
     def addc(self, c):
-        return Lin(self.c + c, self.t)
+        if isinstance(c, Fraction):
+            return self.add(Lin.const(c))
+        if self.d == 1:
+            return Lin(self.cn + c, self.t, 1, True)
+        return Lin(self.cn + c * self.d, self.t, self.d, True)
 
     def neg(self):
-        return Lin(-self.c, {s: -k for s, k in self.t.items()})
+        return Lin(-self.cn, {s: -k for s, k in self.t.items()}, self.d, True)
 
     def sub(self, o):
         return self.add(o.neg())
 
     def scale(self, f):
         if f == 0:
-            return Lin(0, {})
+            return Lin(0, {}, 1, True)
         if f == 1:
             return self
-        return Lin(self.c * f, {s: _norm(k * f) for s, k in self.t.items()})
+        if isinstance(f, Fraction):
+            n, dd = f.numerator, f.denominator
+        else:
+            n, dd = f, 1
+        if n < 0:
+            n, dd = n, dd
+        return Lin(self.cn * n, {s: k * n for s, k in self.t.items()}, self.d * dd)
 
     def div(self, d):
-        return self.scale(Fraction(1, d) if isinstance(d, int) else 1 / Fraction(d))
+        if isinstance(d, int):
+            if d < 0:
+                return Lin(-self.cn, {s: -k for s, k in self.t.items()}, self.d * -d)
+            return Lin(self.cn, self.t, self.d * d)
+        return self.scale(1 / Fraction(d))
 
     def key(self):
         if self._key is None:
-            self._key = (self.c, tuple(sorted(self.t.items(), key=lambda x: str(x[0]))))
+            self._key = (self.cn, self.d, tuple(sorted(self.t.items(), key=lambda x: str(x[0]))))
         return self._key
 
     def __eq__(self, o):
@@ -81,22 +135,21 @@ class Lin:
         return hash(self.key())
 
     def integral_coefs(self):
-        if isinstance(self.c, Fraction):
-            return False
-        for k in self.t.values():
-            if isinstance(k, Fraction):
-                return False
-        return True
+        return self.d == 1
 
     def normalized(self):
-        """returns (nlin_key, scale, offset) with self = scale * nlin + offset,
-        nlin has no constant and leading (smallest str(sym)) coefficient 1."""
+        """returns (nkey, num, den, offn) with  self = (num * nform + offn) / den,
+        nform = sum k_i s_i with integer k_i, gcd 1, leading (smallest str(sym)) coefficient positive."""
         if not self.t:
             return None
+        g = 0
+        for k in self.t.values():
+            g = gcd(g, k)
         s0 = min(self.t, key=str)
-        sc = self.t[s0]
-        items = tuple(sorted(((s, _norm(Fraction(k) / sc)) for s, k in self.t.items()), key=lambda x: str(x[0])))
-        return items, sc, self.c
+        if self.t[s0] < 0:
+            g = -g
+        items = tuple(sorted(((s, k // g) for s, k in self.t.items()), key=lambda x: str(x[0])))
+        return items, g, self.d, self.cn
 
     def syms(self):
         return self.t.keys()
@@ -104,8 +157,9 @@ class Lin:
     def __repr__(self):
         parts = []
         for s, k in sorted(self.t.items(), key=lambda x: str(x[0])):
-            parts.append("%s*%s" % (k, s) if k != 1 else str(s))
-        if self.c != 0 or not parts:
+            co = k if self.d == 1 else Fraction(k, self.d)
+            parts.append("%s*%s" % (co, s) if co != 1 else str(s))
+        if self.cn != 0 or not parts:
             parts.append(str(self.c))
         return " + ".join(parts)
 
@@ -141,9 +195,11 @@ def term_str(h, depth=4):
 
 def _key_str(k, depth):
     try:
-        c, items = k
+        cn, d, items = k
+        c = cn if d == 1 else Fraction(cn, d)
         parts = []
         for s, co in items:
+            co = co if d == 1 else Fraction(co, d)
             ss = term_str(s, depth) if isinstance(s, str) and s in _TERMS else str(s)
             parts.append("%s*%s" % (co, ss) if co != 1 else ss)
         if c != 0 or not parts:
